@@ -410,7 +410,7 @@ func (c *Ctx) afmTableRules(read, write *ssa.Function, events []afmEvent) {
 			why := ""
 			nv := 0
 			prev := ""
-			for variant := 0; variant < 2 && why == ""; variant++ {
+			for variant := 0; variant < 3 && why == ""; variant++ {
 				line, vals, ok := afmSamples(e, variant)
 				if !ok {
 					why = "the operands of the formatted write could not be related to representative values"
@@ -454,7 +454,14 @@ func (c *Ctx) afmTableRules(read, write *ssa.Function, events []afmEvent) {
 				why = check(line)
 				if why == "" {
 					nHdrVariants++
-					for _, v := range afmLayoutVariants(line, false) {
+					free := false
+					for _, a := range e.args {
+						switch a.field {
+						case "Metrics.FullName", "Metrics.Version", "Metrics.Notice":
+							free = true
+						}
+					}
+					for _, v := range afmLayoutVariants(line, false, free) {
 						if w := check(v); w != "" {
 							layoutHdr = append(layoutHdr, w)
 						}
